@@ -166,4 +166,8 @@ def run(ctx: Ctx) -> None:
         ok = len(pw) == 1 and len(pw[0].args) >= 5 and norm(pw[0].args[4]) == "ConnectionState(self.state.copy())"
         ctx.check("C14.R5", f"{mod}:TCPServer.run", "ProtocolWrapper(..., ConnectionState(self.state.copy()), ...)", ok, f"connection state passed as {norm(pw[0].args[4]) if pw and len(pw[0].args) >= 5 else '?'}: connections would share (and mutate) one state dict", pw[0] if pw else run_)
 
+    from ..core import Alias
+    from . import c16
+
+    c16.run(Alias(ctx, "C14.R8", "both workers realise the same lifespan skeletons (handle_lifespan, wait_for_startup/shutdown, asgi_send) and the same per-connection state copy (C16.R1/R2)", only={"C16.R1", "C16.R2"}, where=["lifespan", "TCPServer.run"]))
     ctx.assume("not decided: races between startup completion and lifespan task completion; connections queued in the kernel backlog of an inherited listening socket; that state.copy() is a sufficient (shallow) copy")
